@@ -945,13 +945,15 @@ class NN:
                 info["reverse"] = kw.get("reverse", FALSE) != FALSE
                 info["order"].append("sort")
                 cur = strip(cur[2])
-            elif head(cur) == "comp" and cur[1] in ("list", "gen") and len(cur[3]) == 1 and strip(cur[2]) == cur[3][0][0] and cur[3][0][1]:
+            elif head(cur) == "comp" and cur[1] in ("list", "gen") and len(cur[3]) == 1 and cur[3][0][1] and \
+                    (strip(cur[2]) == cur[3][0][0] or strip(cur[2]) == ("tuple", tuple(("item", cur[3][0][0], k_) for k_ in range(3)))):
                 # [t for t in X if cond(t)] : a filter stage
                 ce = cur[3][0][0]
                 lamid = ("#filter",) + tuple(cur[4][1:]) if isinstance(cur[4], tuple) else ("#filter", 0)
                 conds = cur[3][0][1]
                 body = conds[0] if len(conds) == 1 else ("and", tuple(conds))
-                info["filters"].append(("lam", lamid, (("t", None, "pos"),), subst(body, {ce: ("lparam", lamid, "t")})))
+                lp_ = ("lparam", lamid, "t")
+                info["filters"].append(("lam", lamid, (("t", None, "pos"),), subst(body, dict({ce: lp_}, **{}) | {("item", ce, k_): ("sub", lp_, const(k_)) for k_ in range(3)})))
                 info["order"].append("filter")
                 cur = strip(ce[3])
             elif head(cur) == "comp" and cur[1] in ("list", "gen") and head(strip(cur[2])) == "tuple" and len(strip(cur[2])[1]) == 3:
